@@ -101,15 +101,14 @@ def templateCheck (uri : List Char) : Bool := !(dotdot.isPrefixOf (uNorm uri))
 def modulePath (moddir uri : List Char) : List Char :=
   joinPath (normpath moddir) (uNorm uri ++ ['.', 'p', 'y'])
 
-/-- `TemplateLookup.adjust_uri(uri, relativeto)` (without the memo dictionary); `uri` must be non-empty
-(the real code raises `IndexError` on `""`) -/
+/-- `TemplateLookup.adjust_uri(uri, relativeto)` (without the memo dictionary).  Since the repair of the
+empty uri case (`uri.startswith("/")` instead of `uri[0] == "/"`) the function is total: the empty uri takes
+the relative branch.  The result stays an `Option` (always `some`) so that callers written against the
+earlier partial function keep their shape. -/
 def adjustUri (uri : List Char) (relativeto : Option (List Char)) : Option (List Char) :=
-  match uri with
-  | [] => none
-  | c :: _ =>
-    if c = '/' then some uri
-    else match relativeto with
-      | some r => some (joinPath (dirname r) uri)
-      | none => some ('/' :: uri)
+  if uri.head? = some '/' then some uri
+  else match relativeto with
+    | some r => some (joinPath (dirname r) uri)
+    | none => some ('/' :: uri)
 
 end MakoModel.Path
